@@ -767,6 +767,70 @@ func Workloads(targets []string, codecs []sut.Codec) []Workload {
 	return out
 }
 
+// HeaderVaryWorkloads are multi-page files of the all-required target reqdeep
+// whose page headers change size inside every column chunk: 19 records in
+// pages of 9, 9 and 1 rows, string lengths 30-38 / 0-2 / 80 per page.  The
+// serialised sizes and the statistics of the pages shrink from page 1 to
+// page 2 and grow again (strings) or shrink at the last page (fixed width
+// columns: 72 -> 8 bytes crosses the two-byte varint boundary).
+func HeaderVaryWorkloads(codecs []sut.Codec) []Workload {
+	t := sut.Get("reqdeep")
+	recs := DenseRecords(t, 19)
+	for i := range recs {
+		l := 30 + i
+		switch {
+		case i >= 18:
+			l = 80
+		case i >= 9:
+			l = i % 3
+		}
+		recs[i] = mapStrings(t.Schema(), recs[i], func(string) string {
+			return strings.Repeat(string(rune('a'+i%26)), l)
+		})
+	}
+	var out []Workload
+	for _, cd := range codecs {
+		out = append(out, Workload{fmt.Sprintf("reqdeep/%s/hdrvary", cd), "reqdeep", recs, []int{19}, 9, cd})
+	}
+	return out
+}
+
+// mapStrings rewrites every string leaf of a record.
+func mapStrings(root *refpq.Node, v refpq.Val, fn func(string) string) refpq.Val {
+	var inner func(n *refpq.Node, v refpq.Val) refpq.Val
+	var node func(n *refpq.Node, v refpq.Val) refpq.Val
+	inner = func(n *refpq.Node, v refpq.Val) refpq.Val {
+		if n.Leaf {
+			if s, ok := v.Leaf.(string); ok {
+				return refpq.Val{Leaf: fn(s)}
+			}
+			return v
+		}
+		out := refpq.Val{Group: make([]refpq.Val, len(n.Children))}
+		for i, c := range n.Children {
+			out.Group[i] = node(c, v.Group[i])
+		}
+		return out
+	}
+	node = func(n *refpq.Node, v refpq.Val) refpq.Val {
+		switch n.Rep {
+		case refpq.Optional:
+			if v.Null {
+				return v
+			}
+			return inner(n, v)
+		case refpq.Repeated:
+			out := refpq.Val{List: make([]refpq.Val, len(v.List))}
+			for i, e := range v.List {
+				out.List[i] = inner(n, e)
+			}
+			return out
+		}
+		return inner(n, v)
+	}
+	return inner(root, v)
+}
+
 // Codecs3 is all three codecs.
 func Codecs3() []sut.Codec { return codecs3 }
 
